@@ -120,6 +120,10 @@ def check_history(res, rng, metric, kind, length, ops=None):
                 # with random seeding and tiny k the approximate search may legitimately miss them)
                 touched = list(repl) + list(range(cur_n, cur_n + nf))
                 g_i = idx._neighbor_graph[0]
+                if g_i.shape[0] != len(logical):
+                    res.violation(key + ":graph-shape", "after %s: the neighbour graph has %d rows for %d logical points"
+                                  % (list(done) + [list(op)], g_i.shape[0], len(logical)), case)
+                    return
                 empty = [i for i in touched if not (g_i[i] >= 0).any()]
                 if len(logical) > 2 and len(empty) * 2 > len(touched):
                     res.violation(key + ":new-rows-empty", "after %s: %d of %d appended / replaced points have an empty (all -1) neighbour row"
